@@ -1529,6 +1529,22 @@ func ruleBackfill(r *Report) {
 		if !sameExpr(sc.Args[1], ac.Args[1]) {
 			ok, why = false, "snapshot and apply use different blocks"
 		}
+		// what is snapshotted is the target column, what receives the snapshot is the new computed column
+		var ctor *ssa.Call
+		for _, c := range callsWhere(fn, func(_ ssa.Instruction, cc *ssa.CallCommon) bool {
+			g := cc.StaticCallee()
+			return g != nil && (g.Name() == "newIndex" || g.Name() == "newSortIndex") && len(cc.Args) >= 2
+		}) {
+			ctor, _ = c.(*ssa.Call)
+		}
+		if ctor != nil {
+			if !appsD[0].same(ac.Args[0], ctor) {
+				ok, why = false, "the snapshot of the block is not applied to the index that is being created"
+			}
+			if snapsD[0].same(sc.Args[0], ctor) {
+				ok, why = false, "the block snapshot is taken of the new index itself, not of its target column"
+			}
+		}
 		if !sameExpr(sc.Args[2], kc.Args[1]) || !sameExpr(kc.Args[0], ac.Args[2]) {
 			ok, why = false, "the reader applied is not positioned on the snapshot buffer"
 		}
@@ -2098,6 +2114,8 @@ func takenWhenLarger(phi *ssa.Phi, i int) bool {
 	}
 	big, other := phi.Edges[i], phi.Edges[1-i]
 	switch {
+	case sameExpr(x, y): // a value compared with itself decides nothing: the larger one is never (or always) taken
+		return false
 	case sameExpr(x, other) && sameExpr(y, big): // other < big on the true edge
 		return pol
 	case sameExpr(x, big) && sameExpr(y, other): // big < other on the true edge
